@@ -165,6 +165,37 @@ def c09_b4s(b: S4) -> bool:
     return chx.judge("C09", "c09_b4s", raw, (prods, 1, None), obs, _oracle, realize_obs=False)
 
 
+# variables of the input that are named like the fresh variables to_normal_form invents
+FRESH_NAMES = [("C#CNF#1", "C#CNF#2"), ("a#CNF#", "b#CNF#"), ("C#CNF#2", "a#CNF#")]
+
+
+def _names_oracle(args, obs):
+    prods, names = args
+    return _judge(enc.ref_cfg(prods, 3, vars_=["S"] + list(names)), obs, len(prods))
+
+
+def c09_names(b: Tuple[int, int, int, int], which: int) -> bool:
+    """
+    pre: pinned(which=which, x0=b[0], x1=b[1])
+    pre: enc.in_range(b, 5) & ((0 <= which) & (which < 3))
+    post: _
+    """
+    raw = (b, which)
+    names = FRESH_NAMES[enc.pick(which, 3)]
+    # codes: 0 S, 1 / 2 the two variables with library-like names, 3 a, 4 b
+    body = [enc.pick(b[i], 5) for i in range(4)]
+    prods = [(0, body), (0, [3]), (1, [4]), (2, [3])]
+    chx.enter("c09_names", raw)
+    obs = {}
+    vars_ = ["S"] + list(names)
+    for op in ("remove_useless_symbols", "remove_epsilon", "eliminate_unit_productions", "to_normal_form"):
+        g = enc.build_cfg(prods, 3, vars_=vars_)
+        obs[op] = chx.guarded(getattr(g, op))
+    nf = obs["to_normal_form"]
+    obs["is_normal_form"] = chx.guarded(nf[1].is_normal_form) if nf[0] == "ok" else ("ok", None)
+    return chx.judge("C09", "c09_names", raw, (prods, names), obs, _names_oracle, realize_obs=False)
+
+
 def _sh_p2(tier):
     return [{"p": 0}, {"p": 1}] + product_pins(p=[2], h0=[0, 1], l0=[0, 1, 2])
 
@@ -209,4 +240,11 @@ CONDS = [
          {"quick": "2 productions with bodies of length 3 (shared suffixes possible), first body starting with A or a",
           "thorough": "2 productions with bodies of length 3-4"},
          FUNCS, RULE, assumptions=ASSUME),
+    Cond("C09", c09_names, lambda tier: product_pins(which=[0, 1, 2], x0=[0, 1, 2, 3, 4], x1=[1, 2, 3]) if tier == "quick"
+         else product_pins(which=[0, 1, 2], x0=[0, 1, 2, 3, 4], x1=[0, 1, 2, 3, 4]),
+         {"quick": "S -> x0 x1 x2 x3 | a, V1 -> b, V2 -> a where (V1, V2) are named like the variables to_normal_form "
+                   "invents ('C#CNF#1','C#CNF#2' / 'a#CNF#','b#CNF#' / 'C#CNF#2','a#CNF#'), symbols from {S,V1,V2,a,b}, "
+                   "second symbol not S / b",
+          "thorough": "every body of length 4 over {S,V1,V2,a,b}"},
+         FUNCS + ["CFG._get_next_free_variable", "CFG._get_productions_with_only_single_terminals"], RULE, assumptions=ASSUME),
 ]
